@@ -20,6 +20,7 @@
 #include "awkward/array/ListOffsetArray.h"
 #include "awkward/virtual/ArrayGenerator.h"
 #include "awkward/virtual/ArrayCache.h"
+#include "awkward/Reducer.h"
 #include "awkward/partition/IrregularlyPartitionedArray.h"
 
 namespace ak = awkward;
@@ -282,6 +283,26 @@ static std::string virtual_op(const ak::ContentPtr& arr, const JV& o) {
   if (k == "num") return "{\"ok\":1,\"text\":" + jstr(observe(arr->num(geti(o, "axis", 1), 0))) + "}";
   if (k == "carry") { ak::Index64 ix = mkindex64(need(o, "index")); return "{\"ok\":1,\"text\":" + jstr(observe(arr->carry(ix, false))) + "}"; }
   if (k == "validity") return "{\"ok\":1,\"text\":" + jstr(first_line(arr->validityerror("layout"))) + "}";
+  if (k == "depths" || k == "slice_depths" || k == "slice_sum") {
+    ak::ContentPtr r = arr;
+    if (k != "depths") {              // one-item slices that a VirtualArray answers with a lazier VirtualArray
+      std::string sk = gets(o, "sk", "newaxis");
+      ak::Slice sl;
+      if (sk == "newaxis") sl.append(std::make_shared<ak::SliceNewAxis>());
+      else if (sk == "ellipsis") sl.append(std::make_shared<ak::SliceEllipsis>());
+      else sl.append(std::make_shared<ak::SliceRange>(geti(o, "a", 0), geti(o, "b", 2), 1));
+      sl.become_sealed();
+      r = arr->getitem(sl);
+    }
+    if (k == "slice_sum") {
+      ak::ReducerSum red;
+      return "{\"ok\":1,\"text\":" + jstr(observe(r->reduce(red, geti(o, "axis", 0), false, false))) + "}";
+    }
+    auto mm = r->minmax_depth();
+    auto br = r->branch_depth();
+    return "{\"ok\":1,\"text\":" + jstr(std::to_string((long long)r->purelist_depth()) + " " + std::to_string((long long)mm.first) + " "
+           + std::to_string((long long)mm.second) + " " + (br.first ? "1" : "0") + " " + std::to_string((long long)br.second)) + "}";
+  }
   throw HarnessError("virtual op " + k);
 }
 
